@@ -361,6 +361,14 @@ def sweep_families(tier):
         yield "class.many", d, doc('<rect wh="1" class="%s"/>' % " ".join("c%d" % i for i in range(d))), False
         yield "margin.many", d, doc('<rect id="a" wh="1"/><rect surround="#a" margin="%s"/>' % ("1 " * d)), False
         yield "surround.many", d, doc('<rect id="a" wh="1"/><rect surround="%s"/>' % ("#a " * d)), False
+    # every level refers to the next one twice (thrice): d + 1 elements ask for one addition each, not for 2^d expansions; the
+    # chain stays below the expression nesting limit, so only a bound on the expansions themselves can stop it
+    for d in (5, 20, 30, 45, 60, 63):
+        for b, fam in ((2, "var.chain-branching"), (3, "var.chain-branching3")):
+            yield fam, d, doc("".join('<var v%d="%s"/>' % (i, " + ".join(["$v%d" % (i + 1)] * b)) for i in range(d)) +
+                              '<var v%d="1"/><rect wh="{{$v0}}"/>' % d), False
+        yield "var.chain-branching-fn", d, doc("".join('<var v%d="max($v%d, $v%d)"/>' % (i, i + 1, i + 1) for i in range(d)) +
+                                               '<var v%d="1"/><text text="{{$v0}}"/>' % d), False
     for d in mid:
         yield "attr.many", d, doc("<rect wh=\"1\" %s/>" % " ".join('a%d="1"' % i for i in range(d))), False
         yield "siblings.rect", d, doc('<rect wh="1"/>' * d), False
